@@ -7031,7 +7031,7 @@ fn eval_expr(
         }
         Expression_::Break => {
             *expr_state = ExpressionState::EvaluatedSubexpressions;
-            eval_break(env, expr_value_is_used);
+            eval_break(env);
         }
         Expression_::Continue => {
             *expr_state = ExpressionState::EvaluatedSubexpressions;
@@ -7328,7 +7328,7 @@ fn is_running_loop(expr_state: &ExpressionState, expr: &Expression) -> bool {
     )
 }
 
-fn eval_break(env: &mut Env, expr_value_is_used: bool) {
+fn eval_break(env: &mut Env) {
     // Pop all the currently evaluating expressions until we are no
     // longer inside the innermost loop.
     while let Some((expr_state, expr)) = env.current_frame_mut().exprs_to_eval.pop() {
@@ -7368,12 +7368,13 @@ fn eval_break(env: &mut Env, expr_value_is_used: bool) {
         env.current_frame_mut()
             .exprs_to_eval
             .push((ExpressionState::EvaluatedSubexpressions, Rc::clone(&expr)));
-        break;
-    }
 
-    // Loops always evaluate to unit.
-    if expr_value_is_used {
-        env.push_value(Value::unit());
+        // Loops always evaluate to unit. The expression waiting for
+        // the loop's value, if any, is still pending.
+        if expr.value_is_used {
+            env.push_value(Value::unit());
+        }
+        break;
     }
 }
 
